@@ -18,5 +18,18 @@ from mc import common  # noqa: E402
 cobyqa = common.bind_repo()
 import numpy, scipy  # noqa: E402,E401
 
+# the cross-feature covering arrays: load the cached arrays (rebuilt here if the factor list has changed, so that
+# no check has to do it) and verify the 3-way guarantee from scratch
+from mc import cover  # noqa: E402
+import itertools  # noqa: E402
+
+r3, r4 = cover.rows(3), cover.rows(4)
+left = cover._tuples(3)
+for row in r3:
+    for combo in itertools.combinations(range(len(cover.FACTORS)), 3):
+        left.discard((combo, tuple(row[k] for k in combo)))
+assert not left, "3-way covering array incomplete"
+assert all(len(r) == len(cover.FACTORS) for r in r4)
+print(f"covering arrays: {len(r3)} (3-way, verified) + {len(r4)} (4-way) cases over {len(cover.FACTORS)} factors")
 print(f"selftest ok: {n} harness files, cobyqa {cobyqa.__version__} from {cobyqa.__file__}, "
       f"numpy {numpy.__version__}, scipy {scipy.__version__}")
